@@ -60,8 +60,39 @@ fn parse_ac(s: &str) -> Option<AcF> {
     }
 }
 
-fn filters(df: &DfF, ac: &AcF) -> Filters {
-    Filters { df_filter: df.clone(), aircraft_filter: ac.as_ref().map(|v| v.iter().map(|a| ICAO(*a)).collect()) }
+/// The aircraft filter as jet1090 gets it — as TEXT: on the command line (clap, `FromStr for ICAO`) or in the
+/// configuration file (serde, `Deserialize for ICAO`, which goes through `FromStr` too); six digits as displayed,
+/// upper case, or without leading zeros.  `None` when the text does not parse to the address it spells
+/// (oracle failure `filter-parse`).  Debug/Display of the parsed address is what `--help`/logs show.
+fn icao_from_text(a: u32, i: usize) -> Option<ICAO> {
+    use std::str::FromStr;
+    let text = match i % 3 {
+        0 => format!("{a:06x}"),
+        1 => format!("{a:06X}"),
+        _ => format!("{a:x}"),
+    };
+    let parsed = guarded(|| {
+        if i % 2 == 0 {
+            ICAO::from_str(&text).ok()
+        } else {
+            serde_json::from_value::<ICAO>(serde_json::Value::String(text.clone())).ok()
+        }
+    })
+    .flatten()?;
+    let shown = guarded(|| (format!("{parsed}"), format!("{parsed:?}")))?;
+    if parsed == ICAO(a) && shown.0 == format!("{a:06x}") && shown.1 == shown.0 {
+        Some(parsed)
+    } else {
+        None
+    }
+}
+
+fn filters(df: &DfF, ac: &AcF) -> Option<Filters> {
+    let aircraft_filter = match ac {
+        None => None,
+        Some(v) => Some(v.iter().enumerate().map(|(i, a)| icao_from_text(*a, i + v.len())).collect::<Option<Vec<ICAO>>>()?),
+    };
+    Some(Filters { df_filter: df.clone(), aircraft_filter })
 }
 
 /// would the frame be refused before any payload is looked at? (only gates what is sent to the
@@ -101,7 +132,11 @@ fn flt(out: &mut Out, frame: &[u8], df: &DfF, ac: &AcF, undecoded: bool) {
     let message = if undecoded { None } else { guarded(|| Message::try_from(frame).ok()).flatten() };
     let decoded = message.is_some();
     let tm = TimedMessage { timestamp: 1.0, frame: frame.to_vec(), message, metadata: vec![], decode_time: None };
-    let f = filters(df, ac);
+    let Some(f) = filters(df, ac) else {
+        out.fail("filter-parse", &op, "an aircraft filter item, given as text, does not parse to the address it spells");
+        out.case(&op, "panic");
+        return;
+    };
     let kept = guarded(|| Filters::is_in(&f, &tm));
     let ans = match kept {
         Some(true) => "keep",
@@ -356,6 +391,16 @@ fn all_configs(out: &mut Out, rng: &mut Rng, f: &[u8], undecoded: bool) {
 
 pub fn run(out: &mut Out, rng: &mut Rng, thorough: bool) {
     let k = if thorough { 12 } else { 1 };
+    // filter items that are no hexadecimal number are refused on both paths (never read as some address)
+    for bad in ["", " ", "xyz", "0x4ca123", "4ca123 ", "4c a123", "4ca123h", "-1", "1ffffffff", "\u{663}"] {
+        use std::str::FromStr;
+        let a = guarded(|| ICAO::from_str(bad).ok());
+        let b = guarded(|| serde_json::from_value::<ICAO>(serde_json::Value::String(bad.to_string())).ok());
+        if a != Some(None) || b != Some(None) {
+            out.fail("filter-parse", &format!("icao {bad:?}"), "a text that is no hexadecimal number was accepted as an address (or panicked)");
+        }
+        out.stat("filter-text:refused");
+    }
     // the repository's own test_filter cases
     for (h, d, a) in [
         ("8c4841753a9a153237aef0f275be", "[]", "[]"),
